@@ -12,9 +12,9 @@ class Prop(Bip32Prop):
     theorems = ["C12_paths_are_spec", "C12_paths_hardened", "C12_paths_injective", "C12_hmac_key_is_spec", "C12_entropy_spec",
                 "C12_out_of_range_rejected", "C12_correct_key_refuses"]
     exec_modules = ["Exec.C12"]
-    extra_modules = {"C12Src": ["C12_source_byte_count_is_model", "C12_source_byte_count_table", "C12_source_hex_is_model", "C12_source_mnemonic_is_model", "C12_source_translated"]}
+    extra_modules = {"C12Src": ["C12_source_byte_count_is_model", "C12_source_byte_count_table", "C12_source_hex_is_model", "C12_source_mnemonic_is_model", "C12_source_pwd_is_model", "C12_source_translated"]}
     pysem_funcs = ["bip85.BIP85DeterministicEntropy.byte_count_from_word_count", "bip85.BIP85DeterministicEntropy.hex",
-                   "bip85.BIP85DeterministicEntropy.bip39_mnemonic"]
+                   "bip85.BIP85DeterministicEntropy.bip39_mnemonic", "bip85.BIP85DeterministicEntropy.pwd"]
     exec_import = "From BHW Require Import Lib.Base Exec.Common Exec.Bip32E Exec.C12.\nFrom Coq Require Import String.\nOpen Scope string_scope."
     shard = 2
     rule = ("The five BIP85 applications on master keys (random, leading-zero scalar, 33-byte stored, testnet flag set) at indexes 0, 1, 2^31-1, random "
